@@ -530,7 +530,38 @@ func ExtraDocs() []string {
 	out = append(append(out, NestedKeyDocs()...), ClosureDocs()...)
 	out = append(append(append(out, CaseKeyDocs()...), EscapedKeyDocs()...), AffixDocs()...)
 	out = append(append(out, DimDocs()...), BBoxDocs()...)
-	return append(out, TypeNameDocs()...)
+	out = append(out, TypeNameDocs()...)
+	return append(out, CircleUnitDocs()...)
+}
+
+// CircleUnitDocs: Features in the Circle convention with every kind of
+// radius_units and radius value (standard, other spellings, other JSON kinds,
+// missing), bare and as a member of collections / geometry of a Feature. What
+// they mean is the convention's business when it is on; with it switched off
+// they are ordinary Features.
+func CircleUnitDocs() []string {
+	units := []string{``, `"radius_units":"m"`, `"radius_units":"km"`, `"radius_units":""`, `"radius_units":"ft"`, `"radius_units":"mi"`, `"radius_units":"KM"`, `"radius_units":" m"`, `"radius_units":"meters"`,
+		`"radius_units":5`, `"radius_units":true`, `"radius_units":null`, `"radius_units":["m"]`, `"radius_units":{"u":"m"}`}
+	radii := []string{``, `"radius":5`, `"radius":"5"`, `"radius":null`, `"radius":-1`, `"radius":1e999`, `"radius":[5]`, `"radius":true`}
+	var out []string
+	for _, u := range units {
+		for _, r := range radii {
+			props := `"type":"Circle"`
+			if r != "" {
+				props += "," + r
+			}
+			if u != "" {
+				props += "," + u
+			}
+			f := `{"type":"Feature","geometry":{"type":"Point","coordinates":[-112,33]},"properties":{` + props + `}}`
+			out = append(out, f,
+				`{"type":"FeatureCollection","features":[`+f+`]}`,
+				`{"type":"GeometryCollection","geometries":[{"type":"Point","coordinates":[1,2]},`+f+`]}`,
+				`{"type":"Feature","geometry":`+f+`,"properties":{}}`,
+				`{"type":"Feature","properties":{`+props+`},"geometry":{"type":"Point","coordinates":[-112,33,7]},"id":1}`)
+		}
+	}
+	return out
 }
 
 // TypeNameDocs: "type" values that differ from a correctly spelled type name
